@@ -940,6 +940,11 @@ enum Cmd {
     Read(Vec<(String, Val)>, String, String),
     For(String, Vec<String>, Vec<Cmd>),
     Return,
+    /// `OPTIND=1; [temps] getopts x NAME -x`: a regular built-in that assigns
+    /// NAME=x with Scope::Global (getopts/report.rs); OPTIND and OPTARG are
+    /// outside the names in play.  For the variable NAME this is the caller
+    /// rule of `read`, so the Coq side sees `CRead temps NAME "x"`.
+    Getopts(Vec<(String, Val)>, String),
 }
 
 fn sq(s: &str) -> String {
@@ -1032,6 +1037,7 @@ impl Render {
                 format!("for {n} in {}; do\n{}\ndone", v.join(" "), lines.join("\n"))
             }
             Cmd::Return => "return".into(),
+            Cmd::Getopts(t, n) => format!("OPTIND=1\n{}getopts x {n} -x", temps_sh(t)),
             // the here-document body must start in column 0
             Cmd::Read(t, n, line) => format!("{}read {n} <<E\n{line}\nE", temps_sh(t)),
         }
@@ -1064,6 +1070,7 @@ fn cmd_coq(c: &Cmd) -> String {
         Cmd::Read(t, n, line) => format!("(CRead {} {} {})", temps_coq(t), coq::s(n), coq::s(line)),
         Cmd::For(n, vals, body) => format!("(CFor {} {} {})", coq::s(n), strs_coq(vals), cmds_coq(body)),
         Cmd::Return => "CReturn".into(),
+        Cmd::Getopts(t, n) => format!("(CRead {} {} {})", temps_coq(t), coq::s(n), coq::s("x")),
     }
 }
 
@@ -1225,7 +1232,7 @@ fn emit_script(w: &mut CasesWriter, cs: &[Cmd], stream: &str) {
     }
     fn has_temp(cs: &[Cmd]) -> bool {
         cs.iter().any(|c| match c {
-            Cmd::Probe(t) | Cmd::Special(t) | Cmd::Exec(t) | Cmd::Read(t, _, _) => !t.is_empty(),
+            Cmd::Probe(t) | Cmd::Special(t) | Cmd::Exec(t) | Cmd::Read(t, _, _) | Cmd::Getopts(t, _) => !t.is_empty(),
             Cmd::Call(t, b, _) => !t.is_empty() || has_temp(b),
             Cmd::For(_, _, b) => has_temp(b),
             Cmd::Typeset { temps, .. } => !temps.is_empty(),
@@ -1322,6 +1329,77 @@ impl SGen<'_> {
                 cs.push(Cmd::Probe(vec![]));
             }
         }
+        cs
+    }
+
+    /// One of the built-ins that choose a scope, on a random name.
+    fn scope_cmd(&mut self) -> Cmd {
+        let n = self.name();
+        let v = if self.rng.chance(1, 2) { Some(self.scalar()) } else { None };
+        match self.rng.below(16) {
+            0..=3 => Cmd::Readonly(n, v),
+            4..=6 => Cmd::Export(n, v),
+            7..=9 => Cmd::Typeset {
+                temps: vec![],
+                global: self.rng.chance(1, 2),
+                export: self.rng.chance(1, 4),
+                readonly: self.rng.chance(1, 6),
+                name: n,
+                value: v,
+            },
+            10..=11 => Cmd::Unset(n),
+            12 => {
+                if self.rng.chance(1, 2) {
+                    Cmd::Read(vec![], n, (*self.rng.pick(&["7", "8"])).to_string())
+                } else {
+                    Cmd::Getopts(if self.rng.chance(1, 4) { self.temps() } else { vec![] }, n)
+                }
+            }
+            13 => Cmd::For(n, vec!["1".to_string()], vec![]),
+            14 => Cmd::Assign(vec![(n, self.scalar())]),
+            _ => Cmd::Special(vec![(n, self.scalar())]),
+        }
+    }
+    /// One level of a call chain: optional local declaration, scope built-ins,
+    /// a probe, optionally a deeper call (with or without a temporary
+    /// assignment) followed by a probe and an executed program.
+    fn scope_level(&mut self, depth: usize) -> Vec<Cmd> {
+        let mut b = vec![];
+        if depth > 0 && self.rng.chance(1, 3) {
+            let name = self.name();
+            let value = if self.rng.chance(3, 4) { Some(self.scalar()) } else { None };
+            b.push(Cmd::Typeset { temps: vec![], global: false, export: self.rng.chance(1, 5), readonly: false, name, value });
+        }
+        for _ in 0..self.rng.below(3) {
+            b.push(self.scope_cmd());
+        }
+        b.push(Cmd::Probe(vec![]));
+        if depth < 3 && self.rng.chance(if depth == 0 { 9 } else { 5 }, 10) {
+            let temps = if self.rng.chance(1, 3) { vec![(self.name(), self.scalar())] } else { vec![] };
+            let body = self.scope_level(depth + 1);
+            b.push(Cmd::Call(temps, body, self.args()));
+            b.push(Cmd::Probe(vec![]));
+            if self.rng.chance(1, 2) {
+                b.push(Cmd::Exec(vec![]));
+            }
+            if self.rng.chance(1, 3) {
+                b.push(self.scope_cmd());
+                b.push(Cmd::Probe(vec![]));
+            }
+        }
+        b
+    }
+    fn scope_script(&mut self) -> Vec<Cmd> {
+        let mut cs = vec![];
+        for n in ["a", "b"] {
+            match self.rng.below(4) {
+                0 => cs.push(Cmd::Assign(vec![(n.to_string(), Val::Scalar("g".into()))])),
+                1 => cs.push(Cmd::Export(n.to_string(), Some(Val::Scalar("g".into())))),
+                _ => {}
+            }
+        }
+        cs.extend(self.scope_level(0));
+        cs.push(Cmd::Exec(vec![]));
         cs
     }
 
@@ -1545,6 +1623,136 @@ fn script_corpus() -> Vec<Vec<Cmd>> {
     ]
 }
 
+/// Stream "script_scope": every variable-affecting built-in of the command
+/// language, at every depth, observed inside the function AND after every
+/// return (probe + environment of an executed program).
+///
+/// form   = what is done to the name `a` (readonly / export / typeset with and
+///          without -g, -x, -r / unset / read / getopts / for / plain and special-built-in
+///          assignment, alone or after a local declaration of the same name)
+/// layout = where: top level; in a function; in a function called from a
+///          function (whose caller has / has not a local `a`); in a function
+///          called with the temporary assignment `a=t`; the same one level down
+/// pre    = the state of `a` before: unset, a global, an exported global
+///
+/// The stack-of-maps specification decides what must be seen: readonly, export,
+/// unset, read, for and assignments act on the visible variable or create a
+/// GLOBAL one (they persist after the return unless they hit a local of a
+/// caller); typeset without -g creates a LOCAL one (gone at the return).
+fn scope_scripts() -> Vec<(String, String, Vec<Cmd>)> {
+    let a = || s("a");
+    let sc = |x: &str| Val::Scalar(s(x));
+    let ts = |g: bool, x: bool, r: bool, v: Option<&str>| Cmd::Typeset {
+        temps: vec![],
+        global: g,
+        export: x,
+        readonly: r,
+        name: s("a"),
+        value: v.map(|v| Val::Scalar(s(v))),
+    };
+    let forms: Vec<(&str, Vec<Cmd>)> = vec![
+        ("readonly", vec![Cmd::Readonly(a(), None)]),
+        ("readonly=", vec![Cmd::Readonly(a(), Some(sc("R")))]),
+        ("export", vec![Cmd::Export(a(), None)]),
+        ("export=", vec![Cmd::Export(a(), Some(sc("X")))]),
+        ("readonly=;export", vec![Cmd::Readonly(a(), Some(sc("E"))), Cmd::Export(a(), None)]),
+        ("export;assign", vec![Cmd::Export(a(), None), Cmd::Assign(vec![(a(), sc("v"))])]),
+        ("typeset", vec![ts(false, false, false, None)]),
+        ("typeset=", vec![ts(false, false, false, Some("l"))]),
+        ("typeset-x=", vec![ts(false, true, false, Some("l"))]),
+        ("typeset-r=", vec![ts(false, false, true, Some("l"))]),
+        ("typeset-g", vec![ts(true, false, false, None)]),
+        ("typeset-g=", vec![ts(true, false, false, Some("G"))]),
+        ("typeset-gx=", vec![ts(true, true, false, Some("G"))]),
+        ("typeset-gr", vec![ts(true, false, true, None)]),
+        ("unset", vec![Cmd::Unset(a())]),
+        ("read", vec![Cmd::Read(vec![], a(), s("7"))]),
+        ("read_with_temp", vec![Cmd::Read(vec![(a(), sc("t"))], a(), s("7"))]),
+        ("getopts", vec![Cmd::Getopts(vec![], a())]),
+        ("getopts_with_temp", vec![Cmd::Getopts(vec![(a(), sc("t"))], a())]),
+        ("typeset=;getopts", vec![ts(false, false, false, Some("l")), Cmd::Getopts(vec![], a())]),
+        ("for", vec![Cmd::For(a(), vec![s("1"), s("2")], vec![])]),
+        ("assign", vec![Cmd::Assign(vec![(a(), sc("v"))])]),
+        ("special", vec![Cmd::Special(vec![(a(), sc("s"))])]),
+        ("typeset=;readonly", vec![ts(false, false, false, Some("l")), Cmd::Readonly(a(), None)]),
+        ("typeset=;export", vec![ts(false, false, false, Some("l")), Cmd::Export(a(), None)]),
+        ("typeset=;unset", vec![ts(false, false, false, Some("l")), Cmd::Probe(vec![]), Cmd::Unset(a())]),
+        ("typeset=;read", vec![ts(false, false, false, Some("l")), Cmd::Read(vec![], a(), s("7"))]),
+        ("typeset=;for", vec![ts(false, false, false, Some("l")), Cmd::For(a(), vec![s("1")], vec![])]),
+        ("typeset=;typeset-g=", vec![ts(false, false, false, Some("l")), ts(true, false, false, Some("G"))]),
+        ("typeset=;assign", vec![ts(false, false, false, Some("l")), Cmd::Assign(vec![(a(), sc("v"))])]),
+    ];
+    let pres: Vec<(&str, Vec<Cmd>)> = vec![
+        ("unset", vec![]),
+        ("global", vec![Cmd::Assign(vec![(a(), sc("g"))])]),
+        ("exported", vec![Cmd::Export(a(), Some(sc("g")))]),
+    ];
+    let p = || Cmd::Probe(vec![]);
+    let e = || Cmd::Exec(vec![]);
+    let mut out = vec![];
+    for (fname, form) in &forms {
+        for (pname, pre) in &pres {
+            // the form, then what is seen right there
+            let inner = |before: bool| {
+                let mut b = vec![];
+                if before {
+                    b.push(p());
+                }
+                b.extend(form.iter().cloned());
+                b.push(p());
+                b.push(e());
+                b
+            };
+            let layouts: Vec<(&str, Vec<Cmd>)> = vec![
+                ("top", inner(false)),
+                ("function", vec![Cmd::Call(vec![], inner(true), vec![s("p")]), p(), e()]),
+                (
+                    "nested",
+                    vec![Cmd::Call(vec![], vec![Cmd::Call(vec![], inner(false), vec![]), p(), e()], vec![]), p(), e()],
+                ),
+                (
+                    "nested_under_local",
+                    vec![
+                        Cmd::Call(
+                            vec![],
+                            vec![
+                                ts(false, false, false, Some("o")),
+                                Cmd::Call(vec![], inner(false), vec![]),
+                                p(),
+                                e(),
+                                // is the caller's local still writable?
+                                Cmd::Read(vec![], a(), s("w")),
+                                p(),
+                            ],
+                            vec![],
+                        ),
+                        p(),
+                        e(),
+                    ],
+                ),
+                ("function_with_temp", vec![Cmd::Call(vec![(a(), sc("t"))], inner(true), vec![]), p(), e()]),
+                (
+                    "nested_with_temp",
+                    vec![
+                        Cmd::Call(vec![], vec![Cmd::Call(vec![(a(), sc("t"))], inner(false), vec![]), p(), e()], vec![]),
+                        p(),
+                        e(),
+                    ],
+                ),
+            ];
+            for (lname, layout) in layouts {
+                let mut cs = pre.clone();
+                cs.extend(layout);
+                // after everything: can the variable still be changed?
+                cs.push(Cmd::Read(vec![], a(), s("z")));
+                cs.push(p());
+                out.push((format!("{fname}|{pname}"), lname.to_string(), cs));
+            }
+        }
+    }
+    out
+}
+
 fn main() {
     let args = Args::parse();
     if std::env::var_os("YV_C16_PANIC_MESSAGES").is_none() {
@@ -1610,13 +1818,32 @@ fn main() {
         cs.push(Cmd::Probe(vec![]));
         emit_script(&mut w, &cs, "script_ro");
     }
+    // scripts about the scope chosen by each variable-affecting built-in, at every depth,
+    // observed inside and after the return: systematic, then random
+    for (form, layout, cs) in scope_scripts() {
+        w.count(&format!("script_scope:layout:{layout}"));
+        w.count(&format!("script_scope:form:{}", form.split('|').next().unwrap()));
+        emit_script(&mut w, &cs, "script_scope");
+    }
+    let n = args.scale(120, 2000);
+    for k in 0..n {
+        let mut r = rng.fork(4_000_000 + k as u64);
+        let mut g = SGen { rng: &mut r };
+        let mut cs = g.scope_script();
+        cs.push(Cmd::Probe(vec![]));
+        emit_script(&mut w, &cs, "script_scope_random");
+    }
     w.finish(
         "stream 1: histories of VariableSet operations through the public API (guards), \
          bounded-exhaustive on one name (full alphabet; alphabet of value-less read-only variables) + random on 2-3 names (general; biased to value-less read-only variables hiding one another, then unset/assign); non-trivial = a volatile context \
          was used and (something was made read-only or two contexts were stacked); \
          distinct = by operation sequence.  stream 2: generated scripts (temporary assignments before \
          regular / special built-ins, functions, external utilities; typeset, export, readonly, unset, \
-         set --, read; a sub-stream about value-less read-only variables) run by the real shell on the simulated OS, observed by a probe built-in and by the \
+         set --, read; a sub-stream about value-less read-only variables; a sub-stream script_scope = every \
+         scope-choosing built-in (readonly, export, typeset [-g][-x][-r], unset, read, getopts (its NAME operand), for, plain and special-built-in assignment, \
+         alone or after a local declaration) x {top level, function, nested call, nested call under a caller's local, \
+         function called with a temporary assignment, the same one level down} x {unset, global, exported global}, \
+         probed inside and after every return, + random call chains of such built-ins) run by the real shell on the simulated OS, observed by a probe built-in and by the \
          environment of executed programs; non-trivial = has a function call, a temporary assignment \
          and at least three observations; distinct = by script text",
     );
